@@ -230,8 +230,11 @@ impl Request {
             if line == "\r\n" {
                 break;
             } else {
-                safe_assert(line.len() >= 2)?;
-                let line_without_crlf = &line[0..line.len() - 2];
+                // Header lines must end in CRLF; slicing two bytes off blindly would panic on a line
+                //   that ends in a multi-byte character followed by a bare LF.
+                let line_without_crlf = line
+                    .strip_suffix("\r\n")
+                    .to_error(RequestError::Request)?;
                 let mut line_parts = line_without_crlf.splitn(2, ':');
                 headers.add(
                     HeaderType::from(line_parts.next().to_error(RequestError::Request)?),
@@ -329,8 +332,11 @@ impl Request {
             if line == "\r\n" {
                 break;
             } else {
-                safe_assert(line.len() >= 2)?;
-                let line_without_crlf = &line[0..line.len() - 2];
+                // Header lines must end in CRLF; slicing two bytes off blindly would panic on a line
+                //   that ends in a multi-byte character followed by a bare LF.
+                let line_without_crlf = line
+                    .strip_suffix("\r\n")
+                    .to_error(RequestError::Request)?;
                 let mut line_parts = line_without_crlf.splitn(2, ':');
                 headers.add(
                     HeaderType::from(line_parts.next().to_error(RequestError::Request)?),
